@@ -327,7 +327,10 @@ func listCase(sc *Scenario) {
 	model := fmt.Sprintf("C %s %d %d %s %s %d %s %s %d %s", sc.Kind, sc.N, sc.Limit, common.Hex(sc.AT), common.Hex(sc.Last),
 		sc.CbFail, common.Hex(basePath(sc)), kvsTok(q0), len(resp), strings.Join(resp, " "))
 	obs := fmt.Sprintf("R %s P %d %s O %s", strings.Join(reqs, "|"), len(pages), ps, outcome)
-	run.Case(id, strings.TrimRight(model, " "), obs)
+	// the scenario itself rides along as a last token the model runner ignores, so that a
+	// model/implementation mismatch can be re-run under the oracle (props: case_to_replay)
+	scjs, _ := json.Marshal(sc)
+	run.Case(id, strings.TrimRight(model, " ")+" J"+common.Hex(string(scjs)), obs)
 	run.TracesAgainstImpl++
 
 	// ----- the oracle -----
